@@ -243,6 +243,12 @@ func (ev *Ev) specCall(x *ast.CallExpr) Value {
 			return boolV("true")
 		}
 		return boolV("false")
+	case "heldw": // held exclusively (Lock, not RLock)
+		k := u.lockKeySpec(ev, x.Args[0])
+		if ev.st.held[k] && !ev.st.held[k+"#R"] {
+			return boolV("true")
+		}
+		return boolV("false")
 	case "min", "max":
 		a := ev.expr(x.Args[0])
 		for _, e := range x.Args[1:] {
